@@ -103,6 +103,7 @@ var dtStrings = []string{
 	"12:34:56+05:30", "12:34:56Z", "12:34:56-12", "00:00:00+14:00", "12:34:56.5-04", "07:04:56+00", "12:34:56+00:00", "18:04:56+05:30",
 	"2015-08-01T12:34:56", "2015-08-01 12:34:56.789", "1999-12-31T23:59:59.999999", "2000-01-01T00:00:00", "2015-11-01T01:30:00", "2015-03-08T02:30:00", "2015-08-01T00:00:00", "2015-08-01T23:59:59.9999995",
 	"2015-08-01T12:34:56+05:30", "2015-08-01 12:34:56Z", "2015-08-01T12:34:56-04", "2015-08-01T00:00:00+00:00", "2015-08-02T00:00:00-04:00", "2015-08-01T23:59:59.999999+14:00", "2015-08-01T12:34:56.123456789+01", "2015-08-01T04:00:00Z", "2015-08-01T07:04:56Z",
+	"2015-11-01T01:30:00-04:00", "2015-11-01T01:30:00-05:00", "2015-11-01T06:30:00Z", "2015-03-08T03:30:00-04:00", "2015-03-08T01:30:00-05:00", "2015-03-08T07:30:00Z", "2015-11-01T02:30:00", "2015-03-08T03:30:00",
 	"abc", "", "2015-02-30", "12:34", "2015-08-01T12:34", "20150801",
 }
 
@@ -137,7 +138,7 @@ func dtGrid() []DTCase {
 // dtCompareCases: all ordered pairs x six operators x zone configurations.
 func dtCompareCases(full bool) []DTCase {
 	var out []DTCase
-	sub := dtStrings[:37]
+	sub := dtStrings[:45]
 	zonesTZ := []struct {
 		tz   bool
 		zone string
@@ -272,8 +273,8 @@ func TestC17(t *testing.T) {
 	runTable("methods_by_string_by_precision_by_zone", "c17.datetime", dtGrid(), checkDTFacts)
 	runTable("comparison_pairs_by_operator_by_zone", "c17.datetime", dtCompareCases(thorough()), checkDTFacts)
 	var coh []DTCase
-	for _, a := range dtStrings[:37] {
-		for _, b := range dtStrings[:37] {
+	for _, a := range dtStrings[:45] {
+		for _, b := range dtStrings[:45] {
 			for _, z := range []string{"UTC", "+05:30", "-12:00", "America/New_York"} {
 				coh = append(coh, DTCase{A: a, B: b, TZ: true, Zone: z})
 			}
@@ -284,7 +285,7 @@ func TestC17(t *testing.T) {
 	// transitivity over triples of the comparable corpus, through the implementation's answers
 	t.Run("transitivity", func(t *testing.T) {
 		b := ev.enum(t)
-		vals := dtStrings[:37]
+		vals := dtStrings[:45]
 		for _, z := range []struct {
 			tz   bool
 			zone string
@@ -321,7 +322,7 @@ func TestC17(t *testing.T) {
 			ev.evaluations += int64(n)
 			ev.mu.Unlock()
 		}
-		ev.Exhaustive("datetime_triples_transitivity", int64(3*37*37*37))
+		ev.Exhaustive("datetime_triples_transitivity", int64(3*45*45*45))
 	})
 	ev.rapidProp(t, "random_instants", func(rt *rapid.T) {
 		gen := func(l string) string {
